@@ -506,6 +506,51 @@ func init() {
 		}
 		return nil
 	})
+	// sync.Pool: a per-pool free list, last put first out (what the runtime does on one P); an empty pool calls
+	// New.  Get is a scheduling point candidate only through the code around it.  An object taken from the pool is
+	// the very object that was put (exact aliasing), so use-after-Put shows as ordinary shared-memory interference.
+	pool := func(e *Engine, p Value) *[]Value {
+		ptr := p.(*Value)
+		m, _ := e.pathData["pools"].(map[*Value]*[]Value)
+		if m == nil {
+			m = map[*Value]*[]Value{}
+			e.pathData["pools"] = m
+		}
+		if m[ptr] == nil {
+			m[ptr] = &[]Value{}
+		}
+		return m[ptr]
+	}
+	I("(*sync.Pool).Get", func(e *Engine, fr *frame, a []Value) Value {
+		e.StubsSeen["sync.Pool(LIFO free list)"] = true
+		l := pool(e, a[0])
+		if n := len(*l); n > 0 {
+			v := (*l)[n-1]
+			*l = (*l)[:n-1]
+			return v
+		}
+		st := (*a[0].(*Value)).(Struct)
+		nw := st[len(st)-1] // field New
+		if nw == nil {
+			return Iface{}
+		}
+		if c, ok := nw.(*Closure); ok && c == nil {
+			return Iface{}
+		}
+		if f, ok := nw.(*ssa.Function); ok && f == nil {
+			return Iface{}
+		}
+		return e.callFn(fr, nw, nil, nil)
+	})
+	I("(*sync.Pool).Put", func(e *Engine, fr *frame, a []Value) Value {
+		e.StubsSeen["sync.Pool(LIFO free list)"] = true
+		if iv, ok := a[1].(Iface); ok && iv.T == nil {
+			return nil
+		}
+		l := pool(e, a[0])
+		*l = append(*l, a[1])
+		return nil
+	})
 	I("time.Sleep", func(e *Engine, fr *frame, a []Value) Value { e.quiesceOthersOnce(); return nil })
 	I("runtime.Gosched", func(e *Engine, fr *frame, a []Value) Value { e.quiesceOthersOnce(); return nil })
 	rtIntrinsics["Yield"] = func(e *Engine, fr *frame, a []Value) Value { e.yield(strVal(a[0])); return nil }
